@@ -101,6 +101,13 @@ pub fn check_frame(c: &FrameCase, st: &mut Stats) -> Result<(), String> {
                 return Err(format!("to_bytes_with_newline ({how}) is not to_bytes + CRLF"));
             }
             for (name, e) in [("plain", &enc), ("CRLF", &enc_nl)] {
+                // decoding must not depend on what this thread decoded before: first feed it a rejected text
+                // (this frame with a wrong checksum, and a truncated one), then the valid encoding
+                let mut bad = enc.clone();
+                let last = bad.len() - 1;
+                bad[last] = if bad[last] == b'0' { b'1' } else { b'0' };
+                let _ = Frame::from_bytes(&bad); // (whether it is rejected is C02's subject)
+                let _ = Frame::from_bytes(&enc[..enc.len() - 1]);
                 match Frame::from_bytes(e) {
                     Ok(back) => {
                         if back != frame {
